@@ -1758,7 +1758,9 @@ class Rebalance(Algo):
                 v = c.value
 
             # if non-zero and non-null, we need to close it out
-            if v != 0.0 and not np.isnan(v):
+            # (a sub-strategy is closed whatever its value: it may hold
+            # positions whose value is exactly offset by its cash)
+            if (v != 0.0 or isinstance(c, bt.core.StrategyBase)) and not np.isnan(v):
                 target.close(cname, update=False)
 
         # If cash is set (it should be a value between 0-1 representing the
